@@ -44,12 +44,23 @@ TopStates == {"absent", "sticky", "nonsticky", "linksticky", "linknonsticky", "f
 T1(v) == "t1:" \o v
 T2(v) == "t2:" \o v
 TC(r) == "c:" \o r
+\* A second user ("the other user", uid2) and --all-users.  Directories of the other user: "ohome" (the Trash under the home
+\* directory the password database records for uid2), O1(v) = $topdir/.Trash/$uid2, O2(v) = $topdir/.Trash-$uid2.  "lhome" is
+\* $HOME/.local/share/Trash of the invoking user WHEN $XDG_DATA_HOME points elsewhere: --all-users takes every user's home
+\* trash from the home directory of the password database, not from the environment.  Only trash-list / trash-empty with
+\* --all-users ever look at these four kinds; trash-put never writes there and the other commands never read there.
+O1(v) == "o1:" \o v
+O2(v) == "o2:" \o v
 TDirs == {"home"} \cup {T1(v) : v \in Regions} \cup {T2(v) : v \in Regions} \cup {TC(r) : r \in Regions}
+         \cup {"lhome", "ohome"} \cup {O1(v) : v \in Regions} \cup {O2(v) : v \in Regions}
 \* constant-level lookup tables (TLC evaluates them once)
-TKindF == [t \in TDirs |-> IF t = "home" THEN "home"
+TKindF == [t \in TDirs |-> IF t \in {"home", "lhome", "ohome"} THEN t
                            ELSE IF t \in {T1(v) : v \in Regions} THEN "t1"
-                           ELSE IF t \in {T2(v) : v \in Regions} THEN "t2" ELSE "c"]
-TRegF  == [t \in TDirs |-> IF t = "home" THEN "H" ELSE CHOOSE r \in Regions : t \in {T1(r), T2(r), TC(r)}]
+                           ELSE IF t \in {T2(v) : v \in Regions} THEN "t2"
+                           ELSE IF t \in {O1(v) : v \in Regions} THEN "o1"
+                           ELSE IF t \in {O2(v) : v \in Regions} THEN "o2" ELSE "c"]
+TRegF  == [t \in TDirs |-> IF t \in {"home", "lhome"} THEN "H" ELSE IF t = "ohome" THEN "R"
+                           ELSE CHOOSE r \in Regions : t \in {T1(r), T2(r), TC(r), O1(r), O2(r)}]
 TKind(t) == TKindF[t]
 TReg(t)  == TRegF[t]
 
@@ -177,15 +188,26 @@ ReadUsable(c, s, t) ==
     [] TKind(t) = "t1"   -> TReg(t) \in c.mounted /\ TopSecure(c, TReg(t)) /\ t \in s.tex
     [] TKind(t) = "t2"   -> TReg(t) \in c.mounted /\ t \in s.tex
     [] OTHER             -> FALSE
+\* --all-users: the home trash of every user of the password database (by its home directory there: for the invoking user
+\* that is "home" unless $XDG_DATA_HOME is set, "lhome" then), and on every volume $topdir/.Trash/$u (same checks of
+\* $topdir/.Trash as for oneself) and $topdir/.Trash-$u of every user u
+AllHome(c) == IF c.xdg = "set" THEN "lhome" ELSE "home"
+ReadUsableAll(c, s, t) ==
+  CASE t \in {AllHome(c), "ohome"}   -> TRUE
+    [] TKind(t) \in {"t1", "o1"}     -> TReg(t) \in c.mounted /\ TopSecure(c, TReg(t)) /\ t \in s.tex
+    [] TKind(t) \in {"t2", "o2"}     -> TReg(t) \in c.mounted /\ t \in s.tex
+    [] OTHER                        -> FALSE
 \* --trash-dir may be given several times to trash-list and trash-empty: "V1+R" stands for the custom directories of both
 TdRegions(td) == IF td = "V1+R" THEN {"V1", "R"} ELSE {td}
 \* "top:V1": --trash-dir names the top directory of the volume V1 itself - not a trash directory: there is nothing to read or
 \* purge there (in particular it does not stand for $topdir/.Trash/$uid, whose parent would go unchecked)
 ReadDirs(c, s, td) == IF td = "none" THEN {t \in TDirs : ReadUsable(c, s, t)}
+                      ELSE IF td = "all" THEN {t \in TDirs : ReadUsableAll(c, s, t)}
                       ELSE IF td = "top:V1" THEN {}
                       ELSE {TC(r) : r \in TdRegions(td)}
 \* top directories that exist but must be skipped (trash-list reports them)
 Skipped(c, s) == {t \in s.tex : TKind(t) = "t1" /\ TReg(t) \in c.mounted /\ ~TopSecure(c, TReg(t))}
+SkippedAll(c, s) == {t \in s.tex : TKind(t) \in {"t1", "o1"} /\ TReg(t) \in c.mounted /\ ~TopSecure(c, TReg(t))}
 
 -----------------------------------------------------------------------------
 (* trash-list                                                              *)
@@ -198,20 +220,21 @@ ListApply(c, s, td) ==
                           i \in {x \in s.items : x.t \in ts}}
                       \cup {[o |-> 0 - k.id, date |-> k.date, r |-> k.r, d |-> k.d, n |-> k.n] :
                           k \in {x \in s.strays : x.t \in ts}},
-            diag |-> IF td = "none" THEN Skipped(c, s) ELSE {}]]
+            diag |-> IF td = "none" THEN Skipped(c, s) ELSE IF td = "all" THEN SkippedAll(c, s) ELSE {}]]
 List(td) == LET r == ListApply(cfg, St, td) IN SetSt(r.st) /\ out' = r.out /\ UNCHANGED cfg
 
 \* trash-list --trash-dirs: the directories the reading commands would use, and the ones they refuse, with the reason;
 \* trash-list --volumes: the mounted volumes.  (A $topdir/.Trash that is a link to a sticky directory is refused as a link, one
 \* that is not sticky - linked or not - as not sticky; the home trash is named whether it exists or not.)
-ListDirsApply(c, s) ==
+ListDirsApply(c, s, all) ==
+  LET sk == IF all THEN SkippedAll(c, s) ELSE Skipped(c, s) IN
   [st |-> s,
-   out |-> [cmd |-> "listdirs", exit |-> "ok",
-            found     |-> {t \in TDirs : ReadUsable(c, s, t)},
-            notsticky |-> {t \in Skipped(c, s) : c.top[TReg(t)] \in {"nonsticky", "linknonsticky"}},
-            symlink   |-> {t \in Skipped(c, s) : c.top[TReg(t)] = "linksticky"},
+   out |-> [cmd |-> "listdirs", all |-> all, exit |-> "ok",
+            found     |-> ReadDirs(c, s, IF all THEN "all" ELSE "none"),
+            notsticky |-> {t \in sk : c.top[TReg(t)] \in {"nonsticky", "linknonsticky"}},
+            symlink   |-> {t \in sk : c.top[TReg(t)] = "linksticky"},
             volumes   |-> c.mounted]]
-ListDirs == LET r == ListDirsApply(cfg, St) IN SetSt(r.st) /\ out' = r.out /\ UNCHANGED cfg
+ListDirs(all) == LET r == ListDirsApply(cfg, St, all) IN SetSt(r.st) /\ out' = r.out /\ UNCHANGED cfg
 
 -----------------------------------------------------------------------------
 (* trash-restore                                                           *)
@@ -314,7 +337,7 @@ DoomedStrays(s, days, ts) ==
 DoomedJunk(s, days, ts) ==
   IF days = -1 THEN {j \in s.junk : j.t \in ts /\ j.kind = "nopath"} ELSE {}
 
-EmptyOptsSet == [days : {-1} \cup 0 .. 3, dry : BOOLEAN, consent : {"auto", "yes", "no"}, td : {"none", "V1+R", "top:V1"} \cup Regions]
+EmptyOptsSet == [days : {-1} \cup 0 .. 3, dry : BOOLEAN, consent : {"auto", "yes", "no"}, td : {"none", "all", "V1+R", "top:V1"} \cup Regions]
 \* consent: "auto" = not interactive; "yes"/"no" = interactive with a reply that does / does not begin with y or Y
 
 EmptyApply(c, s, o) ==
@@ -400,7 +423,7 @@ Conservation ==
 
 \* C08: nothing stored under an insecure $topdir/.Trash ever changes, and trash-put never chooses it
 InsecureFrozen ==
-  [][\A t \in TDirs : TKind(t) = "t1" /\ ~TopSecure(cfg, TReg(t)) =>
+  [][\A t \in TDirs : TKind(t) \in {"t1", "o1"} /\ ~TopSecure(cfg, TReg(t)) =>
         /\ {i \in items : i.t = t} = {i \in items' : i.t = t}
         /\ {x \in orph : x.t = t} = {x \in orph' : x.t = t}
         /\ {k \in strays : k.t = t} = {k \in strays' : k.t = t}]_vars
